@@ -146,7 +146,7 @@ def run(tier, v):
     fuzz_rows = [r_ for r_ in rows if r_["k"] == "fuzz"]
     if len(case_rows) != len(cases):
         raise vlib.MachineryError("driver returned %d case lines for %d cases" % (len(case_rows), len(cases)))
-    nontrivial = len({case_key(r_["c"]) for r_ in case_rows if r_["c"]["cls"] not in ("none", "d_none", "xpath_ok", "map_neg_index")})
+    nontrivial = len({case_key(r_["c"]) for r_ in case_rows if r_["c"]["cls"] not in ("none", "d_none", "xpath_ok", "map_neg_index", "unknown_tag")})
     obs = {}
     for r_ in case_rows:
         obs[obs_of(r_)] = obs.get(obs_of(r_), 0) + 1
@@ -170,7 +170,7 @@ def run(tier, v):
         "distinct_nontrivial": nontrivial,
         "rule": "M2: every case of Malformed!Cases (TLC-enumerated; one per format x mode x prefix length x class x trailing, and "
                 "per description defect x target) rendered and run through the real code; non-trivial = the case carries a "
-                "malformed item / defect (controls 'none', 'd_none', 'xpath_ok', 'map_neg_index' excluded). M1 fuzz lines are counted in "
+                "malformed item / defect (controls 'none', 'd_none', 'xpath_ok', 'map_neg_index', 'unknown_tag' excluded). M1 fuzz lines are counted in "
                 "evaluations only; for them the specification contributes only the outcome alphabet {ok,error} and the prefix rule.",
         "cases_enumerated_by_tlc": len(cases),
         "spec_terminal_states": len(terminals),
